@@ -27,6 +27,8 @@ pub enum Op {
     /// different contents from one search to the next (the usual read-into-a-buffer loop).
     /// (finder, haystack, 0 = find / 1 = rfind / 2 = find_iter / 3 = rfind_iter)
     Buf(u8, u8, u8),
+    /// clone an OWNED finder / reverse finder / iterator, drop the source and keep using the clone
+    CloneDrop(u8),
 }
 
 #[derive(Clone, Debug, PartialEq)]
@@ -45,6 +47,7 @@ struct IterSlot<I> {
 
 #[derive(Default)]
 pub struct HistStats {
+    pub clone_drops: u64,
     pub buf_searches: u64,
     pub searches: u64,
     pub steps: u64,
@@ -127,6 +130,47 @@ pub fn run_history(h: &History, st: &mut HistStats) -> Result<(), String> {
             if got != exp {
                 let name = ["find", "rfind", "find_iter", "rfind_iter"][($mode % 4) as usize];
                 return Err(format!("{} #{}: {} over the reused buffer holding haystack {} (cut/padded to {} bytes) = {:?}, but a fresh finder returns {:?}", $what, $k, name, $hi, w, got, exp));
+            }
+        }};
+    }
+
+    macro_rules! clone_drop {
+        ($f:expr) => {{
+            let f: u8 = $f;
+            if let Some(i) = pick!(owned_f, f) {
+                let c = owned_f[i].clone();
+                let old = std::mem::replace(&mut owned_f[i], c);
+                drop(old);
+                st.clone_drops += 1;
+            }
+            if let Some(i) = pick!(owned_r, f) {
+                let c = owned_r[i].clone();
+                let old = std::mem::replace(&mut owned_r[i], c);
+                drop(old);
+            }
+            if let Some(i) = pick!(owned_it, f) {
+                let c = owned_it[i].it.clone();
+                let old = std::mem::replace(&mut owned_it[i].it, c);
+                drop(old);
+                st.clone_drops += 1;
+            }
+            if let Some(i) = pick!(owned_rit, f) {
+                let c = owned_rit[i].it.clone();
+                let old = std::mem::replace(&mut owned_rit[i].it, c);
+                drop(old);
+            }
+            // an allocation of the needle's size class, with other contents, likely reuses the freed block
+            let reuse: Vec<u8> = vec![0xC3; needle_model.len()];
+            std::hint::black_box(&reuse);
+            if let Some(i) = pick!(owned_f, f) {
+                if owned_f[i].needle() != &needle_model[..] {
+                    return Err(format!("needle() of the clone of an owned finder differs from the construction needle once the source is dropped: {:?}", owned_f[i].needle()));
+                }
+            }
+            if let Some(i) = pick!(owned_r, f) {
+                if owned_r[i].needle() != &needle_model[..] {
+                    return Err(format!("needle() of the clone of an owned reverse finder differs from the construction needle once the source is dropped: {:?}", owned_r[i].needle()));
+                }
             }
         }};
     }
@@ -260,6 +304,7 @@ pub fn run_history(h: &History, st: &mut HistStats) -> Result<(), String> {
                             owned_rit.push(c);
                         }
                     }
+                    Op::CloneDrop(f) => clone_drop!(*f),
                     Op::Buf(f, hi, mode) => {
                         let fi = (*f as usize) % fs.len();
                         let ri = (*f as usize) % rs.len();
@@ -337,6 +382,7 @@ pub fn run_history(h: &History, st: &mut HistStats) -> Result<(), String> {
                     owned_f.push(c);
                 }
             }
+            Op::CloneDrop(f) => clone_drop!(*f),
             Op::Buf(f, hi, mode) => {
                 if let (Some(fi), Some(ri)) = (pick!(owned_f, *f), pick!(owned_r, *f)) {
                     bufsearch!(owned_f[fi], owned_r[ri], (*hi as usize) % hays.len(), *mode, "owned finder after the needle buffer was freed", k);
@@ -401,6 +447,7 @@ pub fn parse_op(s: &str) -> Option<Op> {
         "IntoOwnedRevIter" => Op::IntoOwnedRevIter(a),
         "CheckNeedle" => Op::CheckNeedle(a),
         "Buf" => Op::Buf(a, b, c),
+        "CloneDrop" => Op::CloneDrop(a),
         _ => return None,
     })
 }
